@@ -11,12 +11,14 @@ Variable var : list ascii -> R.
 Variable fn : list ascii -> list R -> R.
 Variable mag : nat -> R.          (* |alpha|, |beta|, |gamma| and the other printed numbers *)
 Variable idx : list ascii -> R -> R.   (* array subscripts: y[IDX_x] *)
+Variable nm : nat -> R.            (* identifier atoms (registry symbols) *)
 
 Fixpoint denote (e : ex) : R :=
   match e with
   | ELit s => litv s
   | EMag i => mag i
   | EVar s => var s
+  | EName i => nm i
   | ENeg a => - denote a
   | EPos a => denote a
   | EBin op a b =>
@@ -76,6 +78,13 @@ Ltac run_parse :=
   | |- context [parse ?s] =>
       let r := eval vm_compute in (parse s) in
       replace (parse s) with r by (vm_compute; reflexivity)
+  end.
+
+Ltac run_parse_all :=
+  match goal with
+  | |- context [parse ?s] =>
+      let r := eval vm_compute in (parse s) in
+      progress (replace (parse s) with r by (vm_compute; reflexivity))
   end.
 
 Ltac unify_fn fn lit0 :=
